@@ -1585,6 +1585,23 @@ def keys_lose_path(cirq, circuit, flat_ops):
     return declared != recorded and any(op.tags and cirq.is_measurement(op) for op in flat_ops)
 
 
+
+def measures_inside_a_loop(cirq, circuit):
+    """Does some CircuitOperation with |repetitions| >= 2 (at any depth) hold a measurement?  Its measurements are followed by the
+    next iteration's operations on the same qubits, so only those of the last iteration are terminal; Circuit.are_all_measurements_terminal
+    looks at the CircuitOperation as one operation and calls them all terminal."""
+    def walk(c):
+        for op in c.all_operations():
+            u = op.untagged
+            if isinstance(u, cirq.CircuitOperation):
+                reps = u.repetitions
+                if isinstance(reps, (int, np.integer)) and abs(int(reps)) >= 2 and cirq.is_measurement(u):
+                    return True
+                if walk(u.circuit):
+                    return True
+        return False
+    return walk(circuit)
+
 def root_cause(cirq, cfg, circuit, out, deep):
     """Features of a failing case, computed on the real input/output, that name a recorded defect class (part of the signature)."""
     f = []
@@ -1625,6 +1642,8 @@ def root_cause(cirq, cfg, circuit, out, deep):
             f.append('per-key-order-changed')
     if keys_lose_path(cirq, circuit, ops_in) or keys_lose_path(cirq, out, ops_out):
         f.append('tagged-measurement-loses-key-path')
+    if cfg.name == 'drop_terminal_measurements' and measures_inside_a_loop(cirq, circuit):
+        f.append('measurement-inside-a-repeated-sub-circuit-taken-as-terminal')
     if cfg.name in ('expand_composite', 'optimize_for_target_gateset', 'map_operations', 'map_operations_and_unroll', 'merge_k_qubit_unitaries'):
         g = decompose_defect(cirq, ops_in)
         if g:
